@@ -149,39 +149,7 @@ def CEILING(
         raise xlerrors.NumExcelError('significance below zero and number \
                                       above zero is not allowed')
 
-    number = float(number)
-    significance = float(significance)
-
-    ceiling = significance * math.ceil(number / significance)
-
-    # If number is an exact multiple of significance, no rounding occurs
-    if (number % significance) == 0:
-        return ceiling
-
-    quantize_multiplier = str(significance % 1)
-
-    # If number is negative, and significance is negative, the value is
-    # rounded down, away from zero.
-    if number < 0 and significance < 0:
-        result = decimal.Decimal(ceiling)
-        result = result.quantize(decimal.Decimal(quantize_multiplier),
-                                 rounding=decimal.ROUND_DOWN)
-        return float(result)
-
-    # If number is negative, and significance is positive, the value is
-    # rounded up towards zero.
-    if number < 0 < significance:
-        result = decimal.Decimal(ceiling)
-        result = result.quantize(decimal.Decimal(quantize_multiplier),
-                                 rounding=decimal.ROUND_UP)
-        return float(result)
-
-    # Regardless of the sign of number, a value is rounded up when adjusted
-    # away from zero.
-    result = decimal.Decimal(ceiling)
-    result = result.quantize(decimal.Decimal(quantize_multiplier),
-                             rounding=decimal.ROUND_UP)
-    return float(result)
+    return _multiple(number, significance, decimal.ROUND_CEILING)
 
 
 @xl.register()
@@ -310,7 +278,7 @@ def FLOOR(
     if significance == 0:
         raise xlerrors.DivZeroExcelError()
 
-    return significance * math.floor(number / significance)
+    return _multiple(number, significance, decimal.ROUND_FLOOR)
 
 
 @xl.register()
@@ -466,6 +434,15 @@ def RADIANS(
         radians-function-ac409508-3d48-45f5-ac02-1497c92de5bf
     """
     return np.radians(float(angle))
+
+
+def _multiple(number, significance, _rounding):
+    # Work on the decimal representations: a binary quotient such as
+    # 0.3 / 0.1 = 2.9999999999999996 lands on the wrong multiple.
+    number = decimal.Decimal(str(float(number)))
+    significance = decimal.Decimal(str(float(significance)))
+    multiple = (number / significance).to_integral_value(rounding=_rounding)
+    return float(multiple * significance)
 
 
 def _round(number, num_digits, _rounding=decimal.ROUND_HALF_UP):
